@@ -16,9 +16,15 @@ RowOf(p) == p % 512
 \* strace makes the child a tracee: ptrace combinations can not run under it, and the self-SIGSTOP of
 \* a pid-namespace init is then NOT ignored, so every stop-before-sync combination hangs there
 NoStrace(o) == o.ptrace \/ (o.stop /\ o.sync /\ ~PS(o))
-C04Cases == { [s |-> SiteOf(p), r |-> RowOf(p), opt |-> MkOpt(SiteOf(p), RowOf(p)), hang |-> HangCombo(MkOpt(SiteOf(p), RowOf(p))),
-               nostrace |-> NoStrace(MkOpt(SiteOf(p), RowOf(p))),
-               fail |-> "none", idx |-> 0, cb |-> "ok"] : p \in C04Pairs }
+\* C04 indices are (x*512 + site)*512 + row, x = the credential / gid-mapping dimension (LaunchSteps!MkOptX).
+\* Credential gate, generated and run in every tier: {cred, cred+dropcaps} x {no user namespace, user namespace}
+\* x all eight x: every way of asking for supplementary groups meets every way setgroups may be (dis)allowed.
+XOf(p) == p \div 262144
+CredGate == { (xx * 512 + s) * 512 + r : xx \in 0..7, s \in {1, 3}, r \in {0, 1} }
+C04Cases == { [s |-> SiteOf(p) % 512, r |-> RowOf(p), xd |-> XOf(p), opt |-> MkOptX(SiteOf(p) % 512, RowOf(p), XOf(p)),
+               hang |-> HangCombo(MkOpt(SiteOf(p) % 512, RowOf(p))),
+               nostrace |-> NoStrace(MkOpt(SiteOf(p) % 512, RowOf(p))), gate |-> p \in CredGate,
+               fail |-> "none", idx |-> 0, cb |-> "ok"] : p \in (IF C04Pairs = {} THEN {} ELSE C04Pairs \cup CredGate) }
 
 \* failure points with a real-input recipe (harness/cmd/launch/c07.go) and what the recipe needs
 Recipes ==
